@@ -2051,6 +2051,32 @@ func oracleC16(r *rng, n int, tier string) *oracleResult {
 			t.res.Evaluations += 5
 			t.eval(exCompactHistory(h), fs, nil)
 		}
+		// callers who pass no options at all (the documents they name are read through the package-level loader, relative references
+		// start from the working directory): one whose root refers into a sub-folder, then one whose root refers to a document
+		// next to it
+		if gi == 0 {
+			type m = map[string]interface{}
+			cwdURL := strings.TrimSuffix(exPseudoRoot, ".root")
+			mk := func(ref string, docs m) *exCall {
+				docs[exPseudoRoot] = m{"swagger": "2.0", "info": m{"title": "t", "version": "1"}, "paths": m{}, "definitions": m{"a": m{"$ref": ref}}}
+				c := exFromGeneric(docs, exPseudoRoot).call("expand_spec", exOpts{})
+				c.Entry, c.EmptyBase, c.InProcess = "nil_options", true, true
+				return c
+			}
+			sub := mk("sub/dir/other.json#/definitions/x", m{cwdURL + "sub/dir/other.json": m{"definitions": m{"x": m{"type": "string", "description": "x of sub/dir/other"}}}})
+			next := mk("b.json#/definitions/item", m{cwdURL + "b.json": m{"definitions": m{"item": m{"type": "integer", "description": "item of b"}}}})
+			pool = append(pool, sub, next)
+			n := len(pool)
+			h := &exHistory{Pool: pool, History: []int{n - 2, n - 1, n - 2, n - 1}}
+			fs := checkC16With(h, fresh)
+			for i := range fs {
+				if strings.HasPrefix(fs[i].Shape, "history-changes-result") {
+					fs[i].Shape = "history-changes-result:no-options"
+				}
+			}
+			t.res.Evaluations += 3
+			t.eval(exCompactHistory(h), fs, nil)
+		}
 		for hi := 0; hi < perGroup; hi++ {
 			h := &exHistory{Pool: pool}
 			for k := 2 + rg.intn(29); k > 0; k-- {
